@@ -57,6 +57,10 @@ checks.update({
  "C20": ("model_checking", "bounded-exhaustive exploration of next()/next_back() call histories of the real searcher, contract invariants checked on every history",
          "Built with the pattern feature on nightly: 33 regexes x every haystack over {a, 1, e-acute, U+1F600} up to length 3 (4 thorough) x 26 call histories (forward only, backward only, every interleaving with at most two direction switches), each direction run to Done plus two further calls: steps adjacent and non-overlapping from their end of the haystack, on char boundaries, covering the haystack at Done, forward Match steps = find_iter, each direction unaffected by the other; then str::find / contains / matches / match_indices / split against a find_iter model.", "4 C20"),
 })
+checks.update({
+ "C19": ("model_checking", "preemption-bounded exhaustive exploration of thread schedules of the real executors under a controlled scheduler (scheduling point = interpreted instruction), plus exhaustive enumeration of query histories",
+         "Real OS threads searching one shared &Regex (or clones) run under a baton scheduler whose scheduling points are the per-instruction step hook; every schedule with at most 2 (3 thorough) preemptions of 24 (40) scenarios is executed and each query's result compared with its sequential result on a fresh compile, with the compiled program's fingerprint unchanged; a recorded schedule is replayed twice as a determinism gate. Every ordered history of 1-3 queries from a 12-query menu on one Regex must give the fresh results. Send + Sync is asserted at compile time.", "4 C19"),
+})
 not_applicable = {
 }
 PENDING = "check not built yet in this round (planned in DESIGN.md section 10); nothing is claimed for it until it exists"
